@@ -28,6 +28,7 @@ CALS = [
                                             | {datetime(2024, 2, d): 6 for d in range(1, 29, 2)}
                                             | {datetime(2023, 12, d): 6 for d in range(1, 29, 3)}) | WeeklyCalendar(days=[6], units_per_day=1)),
     ('or', lambda: WeeklyCalendar(days=[0, 1], units_per_day=6) | FixedCalendar(2)),
+    ('dated-editable', lambda: DirectCalendar({datetime(2024, m, d): 6 for m in (1, 2) for d in range(2, 29, 3)} | {datetime(2023, 12, d): 6 for d in range(1, 29, 3)})),
     # validity bounds with a time of day: capacity asked at 09:00 and at midnight of the boundary day differ
     ('bounded-midday', lambda: WeeklyCalendar(days=[0, 1, 2, 3, 4, 5, 6], units_per_day=8) - FixedCalendar(4, end=datetime(2024, 1, 9, 8))),
     ('or-bounded-midday', lambda: WeeklyCalendar(days=[0, 1, 2, 3, 4], units_per_day=4, end=datetime(2024, 1, 10, 12)) | WeeklyCalendar(days=[0, 1, 2, 3, 4, 5], units_per_day=8)),
@@ -234,8 +235,9 @@ def run_case(seed, index, props, direction=None, verbose=False):
             'resources': [(n, cn) for n, cn, _ in rs_spec], 'wbs': describe_wbs(w),
             'outside': [describe_task(o) for o in info['outside']]}
     outcome = None
+    rs_main = mk()
     try:
-        s = with_timeout(20, lambda: sched(mk()).calc(w))
+        s = with_timeout(20, lambda: sched(rs_main).calc(w))
         outcome = 'ok'
     except RecursionError:
         outcome = 'RecursionError'
@@ -257,10 +259,15 @@ def run_case(seed, index, props, direction=None, verbose=False):
     sch = s.schedule; rows = s.resource_usage.rows(); resby = {r.name: r for r in s.resources}
     src_by_id = {}
     for t in w.tasks: src_by_id.setdefault(t.id, t)
-    check_result(R, w, s, direction, balance, bound, clock, defest, tags)
-    # ---- C06: structure of the copy, repeatability, clock independence
-    if wbs_view(sch, dates=False, sort_links=True) != wbs_view(w, dates=False, sort_links=True):
+    structure_ok = wbs_view(sch, dates=False, sort_links=True) == wbs_view(w, dates=False, sort_links=True)
+    if not structure_ok:
         R.bad('C06 result structure differs from input')
+    try:
+        check_result(R, w, s, direction, balance, bound, clock, defest, tags)
+    except Exception as e:
+        # the returned schedule is so inconsistent with the input that the clauses cannot even be evaluated
+        for pid in sorted(props):
+            R.bad(f'{pid} returned schedule is inconsistent with the input WBS ({type(e).__name__} while evaluating the clauses)', str(e)[:120])
     if any(a is b for a, b in zip(w.tasks, sch.tasks)): R.bad('C06 result shares task objects with input')
     if 'C06' in props:
         r1 = result_view(s)
@@ -279,10 +286,29 @@ def run_case(seed, index, props, direction=None, verbose=False):
             except RuntimeError:
                 R.bad('C06 forward outcome depends on the clock', f'RuntimeError at clock {FakeDT._now}')
             set_clock(clock)
+    # ---- a calendar edited in place between two calls: the same Resource objects must see the new capacities (no stale state)
+    editable = [r for r in rs_main if isinstance(getattr(r, 'calendar', None), DirectCalendar)]
+    if editable and (props & {'C03', 'C06', 'C08', 'C09', 'C04'}):
+        for r in editable:
+            r.calendar.set_units({datetime(2024, m, d): 8 for m in (1, 2) for d in range(1, 29, 2)})
+        try:
+            s4 = sched(rs_main).calc(w)
+            R2 = Run(props); check_result(R2, w, s4, direction, balance, bound, clock, defest, tags)
+            for c, d in R2.viol: R.bad(c, d + ' [second call after DirectCalendar.set_units on the same Resource]')
+        except RuntimeError:
+            pass
     # ---- C08: balancing off => independent of unrelated tasks
     if 'C08' in props and direction == 'fwd' and not balance and 'outside-link' not in tags:
         independence(R, w, s, sched, mk, rng)
     return R.viol, tags, desc, outcome
+
+
+def capof(res, d):
+    """capacity of a resource on a date, read from its calendar (not through the resource object, which could be stale)"""
+    cal = getattr(res, 'calendar', None)
+    if cal is None: return res.get_available_units(d)
+    v = cal.get_available_units(d)
+    return 0 if v is None else v
 
 
 def check_result(R, w, s, direction, balance, bound, clock, defest, tags):
@@ -294,14 +320,14 @@ def check_result(R, w, s, direction, balance, bound, clock, defest, tags):
     for r in rows:
         if not r.units > 0: R.bad('C03 non-positive usage row', str(r))
         if r.resource is not resby.get(r.task.resource): R.bad('C03 row booked on a resource other than the task names')
-        if not r.resource.get_available_units(r.date) > 0: R.bad('C03 row on a day without capacity', str(r.date))
+        if not capof(r.resource, r.date) > 0: R.bad('C03 row on a day without capacity', str(r.date))
         if r.date != mid(r.date): R.bad('C03 row date is not a day')
         per[(r.resource.name, r.date)] += r.units; pert[(r.resource.name, r.date, id(r.task))] += r.units
     for (rn, d), u in per.items():
-        if balance and u > resby[rn].get_available_units(d) + EPS: R.bad('C03 day over-allocated (balancing on)', f'{rn} {d} {u}')
+        if balance and u > capof(resby[rn], d) + EPS: R.bad('C03 day over-allocated (balancing on)', f'{rn} {d} {u}')
         if abs(s.resource_usage.reserved(resby[rn], d) - u) > EPS: R.bad('C03 report total differs from rows')
     for (rn, d, t), u in pert.items():
-        if u > resby[rn].get_available_units(d) + EPS: R.bad('C03 task over-allocated on a day', f'{rn} {d} {u}')
+        if u > capof(resby[rn], d) + EPS: R.bad('C03 task over-allocated on a day', f'{rn} {d} {u}')
     if 'C03' in R.pf:
         for rn, res in resby.items():
             f = s.resource_usage.rows(lambda r: r.resource is res)
@@ -313,7 +339,7 @@ def check_result(R, w, s, direction, balance, bound, clock, defest, tags):
             if rn not in ('r1', 'r2'):
                 for k in range(7):
                     d = datetime(2024, 1, 1) + k * DAY
-                    if res.get_available_units(d) != (8 if k < 5 else 0): R.bad('C03 default resource is not Mon-Fri 8')
+                    if capof(res, d) != (8 if k < 5 else 0): R.bad('C03 default resource is not Mon-Fri 8')
     alltasks = list(sch.tasks)
     for t in alltasks:
         st = src[t.id]
@@ -356,14 +382,14 @@ def check_result(R, w, s, direction, balance, bound, clock, defest, tags):
                 res = resby[t.resource]; lastday = max(days) if myrows else mid(t.start)
                 d = mid(release)
                 while d < lastday:
-                    if per.get((res.name, d), 0) < res.get_available_units(d) - EPS:
-                        R.bad('C08 idle capacity before the last work day', f'task {t.id}: {d} booked {per.get((res.name, d), 0)} cap {res.get_available_units(d)} release {release}'); break
+                    if per.get((res.name, d), 0) < capof(res, d) - EPS:
+                        R.bad('C08 idle capacity before the last work day', f'task {t.id}: {d} booked {per.get((res.name, d), 0)} cap {capof(res, d)} release {release}'); break
                     d += DAY
                 if myrows and clock <= bound:
-                    d0 = mid(t.start); cap = res.get_available_units(d0)
+                    d0 = mid(t.start); cap = capof(res, d0)
                     before = sum(r.units for r in rows[:rows.index(myrows[0])] if r.resource is res and r.date == d0)
                     if cap > 0 and abs((t.start - d0).total_seconds() - 86400 * before / cap) > 1e-3: R.bad('C08 start does not encode capacity booked before the task', f'task {t.id}')
-                    ld = max(days); cap = res.get_available_units(ld)
+                    ld = max(days); cap = capof(res, ld)
                     upto = sum(r.units for r in rows[:rows.index(myrows[-1]) + 1] if r.resource is res and r.date == ld)
                     if abs((t.end - ld).total_seconds() - 86400 * upto / cap) > 1e-3: R.bad('C08 end does not encode capacity booked up to the task', f'task {t.id}')
         if fwd and t.milestone and leaf:
@@ -381,19 +407,19 @@ def check_result(R, w, s, direction, balance, bound, clock, defest, tags):
                 res = resby[t.resource]; ds = sorted(days)
                 d = ds[0] + DAY
                 while d < ds[-1]:
-                    if per.get((res.name, d), 0) < res.get_available_units(d) - EPS: R.bad('C09 idle day between first and last work day', f'task {t.id} {d}'); break
+                    if per.get((res.name, d), 0) < capof(res, d) - EPS: R.bad('C09 idle day between first and last work day', f'task {t.id} {d}'); break
                     d += DAY
                 succ_starts = [x2.start for x2 in (by_src(sch, w, x) for a in [st] + list(st.all_parents) for x in a.successors) if x2 is not None and x2.start is not None]
                 due = min(succ_starts + [bound])
                 d = mid(t.end) + DAY
                 while d < mid(due):
-                    if per.get((res.name, d), 0) < res.get_available_units(d) - EPS: R.bad('C09 not late-packed', f'task {t.id}: free {d} before due {due}'); break
+                    if per.get((res.name, d), 0) < capof(res, d) - EPS: R.bad('C09 not late-packed', f'task {t.id}: free {d} before due {due}'); break
                     d += DAY
-                fd = ds[0]; cap = res.get_available_units(fd)
+                fd = ds[0]; cap = capof(res, fd)
                 upto = sum(r.units for r in rows[:rows.index([r for r in myrows if r.date == fd][0]) + 1] if r.resource is res and r.date == fd)
                 if abs((fd + DAY - t.start).total_seconds() - 86400 * upto / cap) > 1e-3: R.bad('C09 start does not encode capacity booked up to the task', f'task {t.id}')
                 ed = mid(t.end - timedelta(microseconds=1)) if t.end == mid(t.end) else mid(t.end)
-                cap = res.get_available_units(ed)
+                cap = capof(res, ed)
                 if cap > 0:
                     before = sum(r.units for r in rows[:rows.index(myrows[0])] if r.resource is res and r.date == ed)
                     if abs((ed + DAY - t.end).total_seconds() - 86400 * before / cap) > 1e-3: R.bad('C09 end does not encode capacity booked before the task', f'task {t.id}')
